@@ -255,9 +255,53 @@ func main() {
 		return
 	}
 	do("cfg keyLenPrefixed=1 idxCheck=1 nilCommit=1")
+	directed(r, im, do)
 	streams := r.Scale(300, 2500)
 	for s := 0; s < streams; s++ {
 		genStream(r, im, do)
+	}
+}
+
+// directed: the streams every run contains, whatever the seed. An equivocating validator whose vote
+// for the majority block is admitted only through a peer's +2/3 claim, with its power needed for the
+// quorum and the quorum crossed by somebody else's vote: the commit assembled from the reported
+// majority must still verify (every vote of the block, not only the crossing one, has to be copied
+// over the first-seen votes).
+func directed(r *vh.Run, im *impl, do func(string) string) {
+	for _, n := range []int{4, 5, 7} {
+		for _, late := range []bool{false, true} {
+			powers := make([]int64, n)
+			for i := range powers {
+				powers[i] = 1
+			}
+			vs := im.setup(powers)
+			addr := func(i int) string { a, _ := im.vals.GetByIndex(i); return vh.Hex(a) }
+			newOp := fmt.Sprintf("new 5 0 2%s", vs)
+			ops := []string{newOp}
+			need := n*2/3 + 1 // votes needed for more than 2/3
+			// validator 0 first votes X, a peer claims +2/3 for B, validator 0's vote for B comes in
+			ops = append(ops, fmt.Sprintf("vote 0 %s 5 0 2 cc 2 dd 0.0", addr(0)))
+			if late { // some votes for B before the claim
+				ops = append(ops, fmt.Sprintf("vote 1 %s 5 0 2 aa 1 bb 1.0", addr(1)))
+			}
+			ops = append(ops, "peer p0 aa 1 bb", fmt.Sprintf("vote 0 %s 5 0 2 aa 1 bb 0.0", addr(0)))
+			for i := 1; i < need; i++ { // the others: the last of them crosses the quorum
+				if late && i == 1 {
+					continue
+				}
+				ops = append(ops, fmt.Sprintf("vote %d %s 5 0 2 aa 1 bb %d.0", i, addr(i), i))
+			}
+			ops = append(ops, "commit")
+			res := ""
+			for _, op := range ops {
+				res = do(op)
+			}
+			r.Count("directed.commit." + res)
+			r.Distinct(fmt.Sprintf("directed n=%d late=%v", n, late))
+			if res != "ok" {
+				r.Fail(vh.Failure{Class: "commit-from-majority-fails-verification", Detail: "an equivocator's vote for the majority block was admitted through a peer's +2/3 claim and is needed for the quorum: MakeCommit of the reported majority does not pass VerifyCommit", Ops: ops, Got: res, Want: "ok"})
+			}
+		}
 	}
 }
 
